@@ -33,7 +33,8 @@ def cls_of(values):
     return ["D" if v == i else ("Z" if v == 0 else "X%d" % v) for i, v in enumerate(values, 1)]
 
 def layout_cells(sc):
-    return [1 if (i + 1) in sc["salloc"] else 0 for i in range(sc["len"])]
+    sset = set(sc["salloc"])
+    return [1 if (i + 1) in sset else 0 for i in range(sc["len"])]
 
 def run_one(binary, sc, run_id, cell=None, tail=0, workers=None, plan=None, no_progress=False, block_bytes=None,
             extra=None, strace=None, keep=False, timeout=60, fsync_src=True):
@@ -83,7 +84,8 @@ def run_one(binary, sc, run_id, cell=None, tail=0, workers=None, plan=None, no_p
            "sruns": runs_of(["D" if i in sset else "Z" for i in range(1, sc["len"] + 1)]), "driver": sc["driver"],
            "bs": sc["bs"], "reflink": sc["reflink"], "kcopy": sc["kcopy"], "prior": sc["prior"],
            "exit": (-9 if r.exit is None else r.exit) if not r.timed_out else -7,
-           "sblocks": sst.st_blocks, "smap": smap, "fsblock": 4096, "holesDetectable": True,
+           "sblocks": sst.st_blocks, "smap": smap, "fsblock": 4096,
+           "holesDetectable": not any("fiemap=unsupported" in x for x in items),
            "slackBlocks": 8 + 8 * len(smap)}
     if os.path.exists(dstp):
         if fsync_src:
